@@ -181,7 +181,7 @@ def isAttr : MapFrom → Bool
   | .arrayStr _ _ => true
   | _ => false
 
-/-- no mapping entry is assigned by row label (false for `BMSToOsu`: finding N08a) -/
+/-- no mapping entry is assigned by row label (was false for `BMSToOsu` before D27 was repaired) -/
 def labelsFree (c : Conv) : Bool := c.casts.all fun cc => cc.mapping.all fun p => isAttr p.2
 
 def freshFrame (f : Frame) : Bool := f.index == rangeIdx f.nrows
